@@ -536,6 +536,32 @@ MANIFEST_TEXT["C08"] = {
     "design_ref": "DESIGN.md section 3 / C08",
 }
 
+PLAN["C09"] = {
+    "pkg": "c09",
+    "race": True,
+    "tests": [
+        {"name": "TestConcurrentSessions", "quick": (192, 16), "thorough": (9600, 16)},
+    ],
+    "budget": {"quick": 900, "thorough": 7200},
+    "rule": "one shared SessionAssets per round (cold flow cache; flows stamped with older spec versions so that they are migrated lazily on "
+            "first use; query-based groups; translations) and 2-6 goroutines released together behind a barrier, each driving its own "
+            "script: read trigger (some with a custom number format), start, then per resume marshal the session, read it back, Inspect() "
+            "and ExtractTemplates of every run's flow, render and JSON-marshal CurrentContext(), resume; two rounds per case. Built with "
+            "-race. Oracle: (a) no data race report from the Go race detector (reports are keyed by the innermost goflow frames of both "
+            "accesses); (b) each goroutine's complete output (events, segments, inspections, contexts, final session), with generated "
+            "UUIDs renamed in order of first appearance and timestamps masked, equals the output of the same script run alone on its own "
+            "assets. Non-trivial = every case (>= 2 goroutines overlapping on the same assets by construction of the barrier); distinct by "
+            "(assets, goroutine count).",
+    "assumptions": COMMON_ASSUMPTIONS + ["schedules are sampled by the Go scheduler, not controlled: a race is found only if the conflicting accesses both execute in some sampled run",
+                                         "only gocommon's concurrency-safe global sources are used (default UUID generator, real clock, locked random); worlds contain no random routers"],
+}
+MANIFEST_TEXT["C09"] = {
+    "technique": "randomized concurrent stress under the Go race detector (rapid-generated worlds and scripts, barrier-released goroutines) with a solo-vs-concurrent differential oracle",
+    "level_text": "Exploration of sampled schedules: no unsynchronised conflicting access executed and every concurrent result equalled the solo result; says nothing about interleavings that were not sampled.",
+    "level_note": "The race detector flags conflicting accesses that executed without happens-before, which is what makes random schedules productive; orderings needing a precise interleaving can be missed.",
+    "design_ref": "DESIGN.md section 3 / C09 and section 4",
+}
+
 # every property without a registered check is listed here with the reason (kept current as checks are added)
-NOT_APPLICABLE = [{"property_id": pid, "reason": "check not built yet in this round (planned in DESIGN.md); nothing is claimed for it"}
+NOT_APPLICABLE = [{"property_id": pid, "reason": "check not built yet (planned in DESIGN.md); nothing is claimed for it"}
                   for pid in ALL_IDS if pid not in PLAN]
